@@ -192,7 +192,7 @@ func (t Time) Equal(strict bool, time2 Time) bool {
 	}
 
 	for i, t1 := range t {
-		if t1 != time2[i] {
+		if i >= len(time2) || t1 != time2[i] {
 			return false
 		}
 	}
